@@ -45,6 +45,10 @@ func (vt *Model) osc(data string) {
 			log.Error("[term] error decoding Base64")
 			return
 		}
+		if vt.vx == nil {
+			// not drawn yet, there is no host to pass the clipboard to
+			return
+		}
 		vt.vx.ClipboardPush(string(decodedBytes))
 	case "777":
 		selector, val, found := cutString(val, ";")
